@@ -1141,12 +1141,17 @@ class IntFlag(Adapter):
         for v in val:
             if isinstance(v, str):
                 v = self.flag_cls[v]
-            new_val |= v
+            # plain int arithmetic, enum.IntFlag drops bits when or-ed with a negative leftover
+            new_val |= int(v)
         return new_val
 
     def decode(self, val: Any, ctx: Optional[ParseContext], pod: bool = False) -> Any:
         if pod:
             return dtypes.flags_to_pod(self.flag_cls, val)
+        if val < 0:
+            # enum.IntFlag can't hold a negative value (signed wire field with the top bit set)
+            # without dropping bits, keep the int as-is so it survives re-encoding.
+            return val
         return self.flag_cls(val)
 
     def default_value(self) -> Any:
